@@ -1,79 +1,100 @@
-(* C02_Model.v — executable model of the three independently written parts that must agree:
+(* C02_Model.v — executable model of the independently written parts that must agree:
      expectation generator   internal/app/connectconformance/test_case_library.go
-                             (populateExpectedUnaryResponse, populateExpectedStreamResponse)
+                             (populateExpectedResponse, populateExpectedUnaryResponse, populateExpectedStreamResponse,
+                              the validations of expandCases / newTestCaseLibrary)
      reference server        internal/app/referenceserver/impl.go (Unary, ClientStream, ServerStream, BidiStream,
-                             parseUnaryResponseDefinition, createRequestInfo)  [grpcserver/impl.go has the same contract]
+                             parseUnaryResponseDefinition, createRequestInfo)
+     gRPC reference server   internal/app/grpcserver/impl.go (the same four handlers on grpc-go)
      reference client        internal/app/referenceclient/impl.go (doUnary, serverStream, clientStream, bidiStream)
+     gRPC reference client   internal/app/grpcclient/impl.go
    for the deterministic fragment of the suite schema (no delays, timeouts, cancellation, raw payloads,
-   size-limit directives).  Request messages are opaque and identified by their position.  The transport
-   (connect-go / grpc-go / net/http) is the identity on this level; what it may add (extra headers, joined
-   values, other letter case) is absorbed by the agreement relation of the specification. *)
-From V Require Export Base.
+   size-limit directives: they cannot be written in [tcase]).  Results are C03's [result]s, so that C03's model of
+   results.go's assert applies to them directly.  What lies between the peers (connect-go / grpc-go / net/http) is
+   the pair of Section variables [tr_req] / [tr_rsp]; C02_Spec states what is assumed of them, the extracted
+   model instantiates them with the identity.  No proofs here. *)
+From V Require Export Base C03_Model.
 Open Scope N_scope.
 
-Definition header := (bytes * list bytes)%type.          (* name, values *)
-
-Record err := { e_code : N; e_msg : option bytes; e_details : list (N * bytes) }.
-Record def := { d_headers : list header; d_trailers : list header; d_data : list bytes; d_err : option err }.
-Record request := { r_data : bytes; r_def : option def }.
-(* stream type: 1 unary, 2 client stream, 3 server stream, 4 half-duplex bidi, 5 full-duplex bidi *)
-Record tcase := { t_name : bytes; t_stype : N; t_reqheaders : list header; t_requests : list request }.
-
-Record reqinfo := { ri_headers : list header; ri_requests : list nat; ri_timeout : option Z }.
-Inductive detail := DAny (kind : N) (b : bytes) | DInfo (ri : reqinfo).
-Record rerr := { re_code : N; re_msg : option bytes; re_details : list detail }.
-Record payload := { p_data : bytes; p_info : option reqinfo }.
-Record result := { res_headers : list header; res_trailers : list header;
-                   res_payloads : list payload; res_err : option rerr; res_unsent : N }.
+(* ------------------------------------------------------------------ *)
+(* test-case definitions                                              *)
+(* ------------------------------------------------------------------ *)
+(* error of a response definition; details are (kind, content): 0 = Header{name: content}, 1 = Error{message: content} *)
+Record xerr := mkX { xe_code : N; xe_msg : option bytes; xe_details : list (N * bytes) }.
+(* Unary- and StreamResponseDefinition share one shape here: a unary definition uses the error if there is one,
+   otherwise the first element of rd_data (if any) as response_data. *)
+Record rdef := mkRD { rd_headers : list header; rd_trailers : list header; rd_data : list bytes; rd_err : option xerr }.
+(* message kinds: 0 UnaryRequest, 1 ClientStreamRequest, 2 ServerStreamRequest, 3 BidiStreamRequest,
+   4 some other linked message type, 5 an Any whose type URL does not resolve *)
+Record request := mkRq { rq_kind : N; rq_full : bool; rq_data : bytes; rq_def : option rdef }.
+(* stream types: 1 unary, 2 client stream, 3 server stream, 4 half-duplex bidi, 5 full-duplex bidi; 0 unspecified *)
+Record tcase := mkT { t_name : bytes; t_stype : N; t_reqheaders : list header; t_requests : list request }.
 
 Inductive outcome (A : Type) := Ok (a : A) | Err | Crash.
 Arguments Ok {A} a. Arguments Err {A}. Arguments Crash {A}.
 
-Definition conv_err (e : err) (extra : list detail) : rerr :=
-  {| re_code := e_code e; re_msg := e_msg e;
-     re_details := map (fun kb => DAny (fst kb) (snd kb)) (e_details e) ++ extra |}.
+(* a request message as an Any: its type and its request data identify it *)
+Definition req_any (r : request) : any := mkAny (rq_kind r) (rq_data r).
+Definition reqs_any (rs : list request) : list any := map req_any rs.
 
-Definition all_indices (tc : tcase) : list nat := seq 0 (length (t_requests tc)).
-Definition first_def (tc : tcase) : option def :=
-  match t_requests tc with [] => None | r :: _ => r_def r end.
-Definition full_info (tc : tcase) (reqs : list nat) : reqinfo :=
-  {| ri_headers := t_reqheaders tc; ri_requests := reqs; ri_timeout := None |}.
-Definition is_unary_kind (st : N) : bool := (st =? 1) || (st =? 2).
+Definition type_url (kind : N) : bytes :=
+  if kind =? 0 then bs "type.googleapis.com/connectrpc.conformance.v1.Header"
+  else bs "type.googleapis.com/connectrpc.conformance.v1.Error".
+(* proto encoding of Header{name: b} (field 1) and Error{message: b} (field 2, explicit presence); b shorter than 128 bytes *)
+Definition detail_bytes (kind : N) (b : bytes) : bytes :=
+  match b with
+  | [] => if kind =? 0 then [] else [18; 0]
+  | _ => (if kind =? 0 then 10 else 18) :: N.of_nat (length b) :: b
+  end.
+(* detail Anys carry type 10 / 11 (never compared with request messages) *)
+Definition det_any (kb : N * bytes) : any :=
+  mkAny (10 + (if fst kb =? 0 then 0 else 1)) (detail_bytes (fst kb) (snd kb)).
+
+(* Error proto -> the error a peer reports, with [extra] details appended *)
+Definition conv_err (e : xerr) (extra : list detail) : rpc_error :=
+  mkE (xe_code e) (xe_msg e) (map (fun kb => DOther (det_any kb)) (xe_details e) ++ extra).
+
+Definition info (hdrs : list header) (reqs : list any) : reqinfo := mkRI hdrs None reqs [].
 
 (* ------------------------------------------------------------------ *)
 (* the expectation generator                                          *)
 (* ------------------------------------------------------------------ *)
+Inductive firstdef := FNone | FDef (d : rdef) | FErr.
+
+(* UnmarshalNew of the first request + type assertion to unaryResponseDefiner / streamResponseDefiner *)
+Definition first_def (unary : bool) (reqs : list request) : firstdef :=
+  match reqs with
+  | [] => FNone
+  | r :: _ =>
+    let k := rq_kind r in
+    if (if unary then (k =? 0) || (k =? 1) else (k =? 2) || (k =? 3))
+    then match rq_def r with Some d => FDef d | None => FNone end
+    else FErr
+  end.
+
 Definition expected_unary (tc : tcase) : outcome result :=
-  let info := full_info tc (all_indices tc) in
-  match first_def tc with
-  | None => Ok {| res_headers := []; res_trailers := [];
-                  res_payloads := [ {| p_data := []; p_info := Some info |} ]; res_err := None; res_unsent := 0 |}
-  | Some d =>
-    match d_err d with
-    | Some e => Ok {| res_headers := d_headers d; res_trailers := d_trailers d; res_payloads := [];
-                      res_err := Some (conv_err e [DInfo info]); res_unsent := 0 |}
-    | None => Ok {| res_headers := d_headers d; res_trailers := d_trailers d;
-                    res_payloads := [ {| p_data := hd [] (d_data d); p_info := Some info |} ];
-                    res_err := None; res_unsent := 0 |}
+  let ri := info (t_reqheaders tc) (reqs_any (t_requests tc)) in
+  match first_def true (t_requests tc) with
+  | FErr => Err
+  | FNone => Ok (mkR [] [] [mkP [] ri] None None 0)
+  | FDef d =>
+    match rd_err d with
+    | Some e => Ok (mkR (rd_headers d) (rd_trailers d) [] (Some (conv_err e [DReq ri])) None 0)
+    | None => Ok (mkR (rd_headers d) (rd_trailers d) [mkP (hd [] (rd_data d)) ri] None None 0)
     end
   end.
 
-(* payload idx of a stream expectation; the full-duplex branch reads RequestMessages[idx]:
-   modelled with nth_error so that an out-of-range index is an explicit Crash, guarded as the
-   (repaired) code guards it. *)
+(* payload idx of a stream expectation.  The full-duplex branch reads RequestMessages[idx]: modelled with nth_error
+   so that an index past the end is an explicit Crash; the guard idx < len is the one the repaired code has. *)
 Definition expected_stream_payload (tc : tcase) (idx : nat) (data : bytes) : outcome payload :=
   if t_stype tc =? 5 then
     if Nat.ltb idx (length (t_requests tc)) then
       match nth_error (t_requests tc) idx with
       | None => Crash
-      | Some _ =>
-        Ok {| p_data := data;
-              p_info := Some (if Nat.eqb idx 0 then full_info tc [idx]
-                              else {| ri_headers := []; ri_requests := [idx]; ri_timeout := None |}) |}
+      | Some r => Ok (mkP data (info (if Nat.eqb idx 0 then t_reqheaders tc else []) [req_any r]))
       end
-    else Ok {| p_data := data; p_info := None |}
+    else Ok (mkP data empty_ri)
   else
-    Ok {| p_data := data; p_info := if Nat.eqb idx 0 then Some (full_info tc (all_indices tc)) else None |}.
+    Ok (mkP data (if Nat.eqb idx 0 then info (t_reqheaders tc) (reqs_any (t_requests tc)) else empty_ri)).
 
 Fixpoint expected_stream_payloads (tc : tcase) (idx : nat) (datas : list bytes) : outcome (list payload) :=
   match datas with
@@ -87,275 +108,492 @@ Fixpoint expected_stream_payloads (tc : tcase) (idx : nat) (datas : list bytes) 
   end.
 
 Definition expected_stream (tc : tcase) : outcome result :=
-  match first_def tc with
-  | None => Ok {| res_headers := []; res_trailers := []; res_payloads := []; res_err := None; res_unsent := 0 |}
-  | Some d =>
-    (* an immediate error carries the request info in its details: every request for server and
-       half-duplex streams; for full-duplex only the first, because the server must throw as soon as
-       it receives a request and has no response left (service.proto, BidiStream) *)
-    let info_reqs := if t_stype tc =? 5 then firstn 1 (all_indices tc) else all_indices tc in
-    let extra := match d_data d with [] => [DInfo (full_info tc info_reqs)] | _ => [] end in
-    match expected_stream_payloads tc 0 (d_data d) with
-    | Ok ps => Ok {| res_headers := d_headers d; res_trailers := d_trailers d; res_payloads := ps;
-                     res_err := option_map (fun e => conv_err e extra) (d_err d); res_unsent := 0 |}
+  match first_def false (t_requests tc) with
+  | FErr => Err
+  | FNone => Ok (mkR [] [] [] None None 0)
+  | FDef d =>
+    (* an immediate error carries the request info, with every request of the case, in its details *)
+    let extra := match rd_data d with
+                 | [] => [DReq (info (t_reqheaders tc) (reqs_any (t_requests tc)))]
+                 | _ => [] end in
+    match expected_stream_payloads tc 0 (rd_data d) with
+    | Ok ps => Ok (mkR (rd_headers d) (rd_trailers d) ps (option_map (fun e => conv_err e extra) (rd_err d)) None 0)
     | Err => Err
     | Crash => Crash
     end
   end.
 
+(* populateExpectedResponse *)
 Definition expected (tc : tcase) : outcome result :=
-  if is_unary_kind (t_stype tc) then expected_unary tc
-  else if (t_stype tc =? 3) || (t_stype tc =? 4) || (t_stype tc =? 5) then expected_stream tc
+  let st := t_stype tc in
+  if (st =? 1) || (st =? 2) then expected_unary tc
+  else if (st =? 3) || (st =? 4) || (st =? 5) then expected_stream tc
   else Err.
 
 (* ------------------------------------------------------------------ *)
-(* the reference server: what goes on the wire                        *)
+(* loading a suite: expandCases' validations + expectations           *)
 (* ------------------------------------------------------------------ *)
-Record wire := { w_headers : list header; w_trailers : list header; w_msgs : list payload; w_err : option rerr }.
+Fixpoint has_dup (l : list bytes) : bool :=
+  match l with [] => false | x :: l' => mem_bytes x l' || has_dup l' end.
 
-Definition srv_unary (tc : tcase) : wire :=
-  (* Unary sees its single request; ClientStream reads every request first *)
-  let info := full_info tc (all_indices tc) in
-  match first_def tc with
-  | None => {| w_headers := []; w_trailers := []; w_msgs := [ {| p_data := []; p_info := Some info |} ]; w_err := None |}
-  | Some d =>
-    match d_err d with
-    | Some e => {| w_headers := d_headers d; w_trailers := d_trailers d; w_msgs := [];
-                   w_err := Some (conv_err e [DInfo info]) |}
-    | None => {| w_headers := d_headers d; w_trailers := d_trailers d;
-                 w_msgs := [ {| p_data := hd [] (d_data d); p_info := Some info |} ]; w_err := None |}
+Fixpoint all_ok {A} (l : list (outcome A)) : outcome (list A) :=
+  match l with
+  | [] => Ok []
+  | o :: l' =>
+    match o, all_ok l' with
+    | Ok a, Ok r => Ok (a :: r)
+    | Crash, _ | _, Crash => Crash
+    | _, _ => Err
     end
   end.
 
-(* responses numbered from respNum on, request info only on response 0 *)
-Fixpoint srv_flush (tc : tcase) (reqs : list nat) (resp_num : nat) (datas : list bytes) : list payload :=
+(* test cases whose stream type is none of the five known ones never match a config case: dropped silently *)
+Definition expandable (tc : tcase) : bool := (1 <=? t_stype tc) && (t_stype tc <=? 5).
+
+Definition load (tcs : list tcase) : outcome (list (bytes * result)) :=
+  if existsb (fun tc => is_nil (t_name tc)) tcs then Err
+  else if existsb (fun tc => t_stype tc =? 0) tcs then Err
+  else
+    let live := filter expandable tcs in
+    if has_dup (map t_name live) then Err
+    else if is_nil live then Err
+    else match all_ok (map expected live) with
+         | Ok rs => Ok (combine (map t_name live) rs)
+         | Err => Err
+         | Crash => Crash
+         end.
+
+(* ------------------------------------------------------------------ *)
+(* the servers: received request headers and messages -> wire         *)
+(* ------------------------------------------------------------------ *)
+Record wire := mkW { w_headers : list header; w_trailers : list header; w_msgs : list payload; w_err : option rpc_error }.
+
+Definition empty_wire : wire := mkW [] [] [] None.
+Definition def_headers (d : option rdef) : list header := match d with Some d => rd_headers d | None => [] end.
+Definition def_trailers (d : option rdef) : list header := match d with Some d => rd_trailers d | None => [] end.
+
+(* parseUnaryResponseDefinition: payload or error *)
+Definition parse_unary (hdrs : list header) (d : option rdef) (reqs : list any) : payload + rpc_error :=
+  let ri := info hdrs reqs in
+  match d with
+  | None => inl (mkP [] ri)
+  | Some d =>
+    match rd_err d with
+    | Some e => inr (conv_err e [DReq ri])
+    | None => inl (mkP (hd [] (rd_data d)) ri)
+    end
+  end.
+
+Definition unary_wire (d : option rdef) (r : payload + rpc_error) : wire :=
+  match r with
+  | inl p => mkW (def_headers d) (def_trailers d) [p] None
+  | inr e => mkW (def_headers d) (def_trailers d) [] (Some e)
+  end.
+
+(* a unary or server-stream handler is invoked with exactly one message; anything else never reaches it *)
+Definition protocol_error : wire := mkW [] [] [] (Some (mkE 12 None [])).
+
+Definition srv_unary (hdrs : list header) (reqs : list request) : wire :=
+  match reqs with
+  | [r] => unary_wire (rq_def r) (parse_unary hdrs (rq_def r) [req_any r])
+  | _ => protocol_error
+  end.
+
+(* ClientStream: the definition of the first message, every message recorded *)
+Fixpoint recv_all (incoming : list request) (first : bool) (d : option rdef) (acc : list any) : option rdef * list any :=
+  match incoming with
+  | [] => (d, acc)
+  | r :: more => recv_all more false (if first then rq_def r else d) (acc ++ [req_any r])
+  end.
+
+Definition srv_client_stream (hdrs : list header) (reqs : list request) : wire :=
+  let '(d, got) := recv_all reqs true None [] in
+  unary_wire d (parse_unary hdrs d got).
+
+(* responses numbered from resp_num on; request info only with response 0 *)
+Fixpoint flush (hdrs : list header) (reqs : list any) (resp_num : nat) (datas : list bytes) : list payload :=
   match datas with
   | [] => []
-  | d :: ds =>
-    {| p_data := d; p_info := if Nat.eqb resp_num 0 then Some (full_info tc reqs) else None |}
-      :: srv_flush tc reqs (S resp_num) ds
+  | d :: ds => mkP d (if Nat.eqb resp_num 0 then info hdrs reqs else empty_ri) :: flush hdrs reqs (S resp_num) ds
   end.
 
-Definition srv_server_stream (tc : tcase) : wire :=
-  match first_def tc with
-  | None => {| w_headers := []; w_trailers := []; w_msgs := []; w_err := None |}
-  | Some d =>
-    let info := full_info tc (all_indices tc) in
-    {| w_headers := d_headers d; w_trailers := d_trailers d;
-       w_msgs := srv_flush tc (all_indices tc) 0 (d_data d);
-       w_err := option_map (fun e => conv_err e (match d_data d with [] => [DInfo info] | _ => [] end)) (d_err d) |}
+(* the error returned at the end: request info appended exactly when no response was sent *)
+Definition final_err (hdrs : list header) (reqs : list any) (resp_num : nat) (d : rdef) : option rpc_error :=
+  option_map (fun e => conv_err e (if Nat.eqb resp_num 0 then [DReq (info hdrs reqs)] else [])) (rd_err d).
+
+Definition srv_server_stream (hdrs : list header) (reqs : list request) : wire :=
+  match reqs with
+  | [r] =>
+    match rq_def r with
+    | None => empty_wire
+    | Some d => mkW (rd_headers d) (rd_trailers d) (flush hdrs [req_any r] 0 (rd_data d))
+                    (final_err hdrs [req_any r] (length (rd_data d)) d)
+    end
+  | _ => protocol_error
   end.
 
-(* full-duplex receive loop: request i arrives; if no response is left the loop breaks, otherwise
-   response resp_num goes out echoing the requests received since the last response *)
-Fixpoint srv_full_loop (tc : tcase) (incoming : list nat) (resp_num : nat) (datas : list bytes)
-  : list payload * nat * list bytes * list nat (* sent, resp_num, remaining data, reqs since last response *) :=
+(* BidiStream, full-duplex receive loop after the first message fixed the definition: a request arrives; if no
+   response is left the loop breaks (keeping that request as the only one since the last response), otherwise
+   response resp_num goes out echoing it (headers only with response 0) and the pending list is reset. *)
+Fixpoint full_loop (hdrs : list header) (resp_num : nat) (datas : list bytes) (incoming : list request)
+  : list payload * nat * list bytes * list any (* sent, resp_num, data not yet sent, requests since the last response *) :=
   match incoming with
   | [] => ([], resp_num, datas, [])
-  | i :: more =>
+  | r :: more =>
     match datas with
-    | [] => ([], resp_num, [], [i])                          (* break: nothing left to send *)
+    | [] => ([], resp_num, [], [req_any r])
     | d :: ds =>
-      let info := if Nat.eqb resp_num 0 then full_info tc [i]
-                  else {| ri_headers := []; ri_requests := [i]; ri_timeout := None |} in
-      let '(sent, rn, rest, pend) := srv_full_loop tc more (S resp_num) ds in
-      ({| p_data := d; p_info := Some info |} :: sent, rn, rest, pend)
+      let '(sent, rn, rest, pend) := full_loop hdrs (S resp_num) ds more in
+      (mkP d (info (if Nat.eqb resp_num 0 then hdrs else []) [req_any r]) :: sent, rn, rest, pend)
     end
   end.
 
-Definition srv_bidi (tc : tcase) : wire :=
-  match t_requests tc with
-  | [] => {| w_headers := []; w_trailers := []; w_msgs := []; w_err := None |}
-  | _ =>
-    match first_def tc with
-    | None => {| w_headers := []; w_trailers := []; w_msgs := []; w_err := None |}
+Definition srv_bidi (hdrs : list header) (reqs : list request) : wire :=
+  match reqs with
+  | [] => empty_wire                               (* end of input at once: no definition, nothing to send *)
+  | r0 :: _ =>
+    match rq_def r0 with
+    | None => empty_wire
     | Some d =>
-      if t_stype tc =? 5 then
-        let '(sent, rn, rest, pend) := srv_full_loop tc (all_indices tc) 0 (d_data d) in
-        let flushed := srv_flush tc pend rn rest in
-        let total := (rn + length rest)%nat in
-        {| w_headers := d_headers d; w_trailers := d_trailers d; w_msgs := sent ++ flushed;
-           w_err := option_map (fun e => conv_err e (if Nat.eqb total 0 then [DInfo (full_info tc pend)] else [])) (d_err d) |}
+      if rq_full r0 then
+        let '(sent, rn, rest, pend) := full_loop hdrs 0 (rd_data d) reqs in
+        mkW (rd_headers d) (rd_trailers d) (sent ++ flush hdrs pend rn rest)
+            (final_err hdrs pend (rn + length rest) d)
       else
-        let reqs := all_indices tc in
-        {| w_headers := d_headers d; w_trailers := d_trailers d; w_msgs := srv_flush tc reqs 0 (d_data d);
-           w_err := option_map (fun e => conv_err e (match d_data d with [] => [DInfo (full_info tc reqs)] | _ => [] end)) (d_err d) |}
+        let got := snd (recv_all reqs true None []) in
+        mkW (rd_headers d) (rd_trailers d) (flush hdrs got 0 (rd_data d)) (final_err hdrs got (length (rd_data d)) d)
     end
   end.
 
-Definition ref_server (tc : tcase) : wire :=
-  if is_unary_kind (t_stype tc) then srv_unary tc
-  else if t_stype tc =? 3 then srv_server_stream tc
-  else srv_bidi tc.
+Definition ref_server (st : N) (hdrs : list header) (reqs : list request) : wire :=
+  if st =? 1 then srv_unary hdrs reqs
+  else if st =? 2 then srv_client_stream hdrs reqs
+  else if st =? 3 then srv_server_stream hdrs reqs
+  else srv_bidi hdrs reqs.
 
-(* ------------------------------------------------------------------ *)
-(* the reference client: what it reports                              *)
-(* ------------------------------------------------------------------ *)
-(* error metadata of unary / client-stream calls: one bag, headers then trailers *)
-Definition ref_client (st : N) (w : wire) : result :=
-  if is_unary_kind st then
-    match w_err w with
-    | Some e => {| res_headers := []; res_trailers := w_headers w ++ w_trailers w; res_payloads := [];
-                   res_err := Some e; res_unsent := 0 |}
-    | None => {| res_headers := w_headers w; res_trailers := w_trailers w; res_payloads := w_msgs w;
-                 res_err := None; res_unsent := 0 |}
+(* ---- grpcserver/impl.go: written separately, as the code is ---- *)
+Definition g_unary (hdrs : list header) (reqs : list request) : wire :=
+  match reqs with
+  | [r] =>
+    (* SendHeader / SetTrailer first, then parseUnaryResponseDefinition *)
+    match parse_unary hdrs (rq_def r) [req_any r] with
+    | inr e => mkW (def_headers (rq_def r)) (def_trailers (rq_def r)) [] (Some e)
+    | inl p => mkW (def_headers (rq_def r)) (def_trailers (rq_def r)) [p] None
     end
-  else {| res_headers := w_headers w; res_trailers := w_trailers w; res_payloads := w_msgs w;
-          res_err := w_err w; res_unsent := 0 |}.
+  | _ => protocol_error
+  end.
 
-Definition observed (tc : tcase) : result := ref_client (t_stype tc) (ref_server tc).
+Fixpoint g_recv_all (incoming : list request) (d : option (option rdef)) (acc : list any) : option (option rdef) * list any :=
+  match incoming with
+  | [] => (d, acc)
+  | r :: more => g_recv_all more (match d with None => Some (rq_def r) | Some _ => d end) (acc ++ [req_any r])
+  end.
+
+Definition g_client_stream (hdrs : list header) (reqs : list request) : wire :=
+  let '(d, got) := g_recv_all reqs None [] in
+  let d := match d with Some d => d | None => None end in
+  match parse_unary hdrs d got with
+  | inr e => mkW (def_headers d) (def_trailers d) [] (Some e)
+  | inl p => mkW (def_headers d) (def_trailers d) [p] None
+  end.
+
+Definition g_server_stream (hdrs : list header) (reqs : list request) : wire :=
+  match reqs with
+  | [r] =>
+    match rq_def r with
+    | None => empty_wire
+    | Some d =>
+      let msgs := flush hdrs [req_any r] 0 (rd_data d) in
+      mkW (rd_headers d) (rd_trailers d) msgs (final_err hdrs [req_any r] (length msgs) d)
+    end
+  | _ => protocol_error
+  end.
+
+(* the gRPC server's loop tests the definition for nil inside the loop *)
+Fixpoint g_full_loop (hdrs : list header) (d : option rdef) (resp_num : nat) (incoming : list request)
+  : list payload * nat * list any :=
+  match incoming with
+  | [] => ([], resp_num, [])
+  | r :: more =>
+    match d with
+    | None => ([], resp_num, [req_any r])
+    | Some df =>
+      match nth_error (rd_data df) resp_num with
+      | None => ([], resp_num, [req_any r])
+      | Some x =>
+        let '(sent, rn, pend) := g_full_loop hdrs d (S resp_num) more in
+        (mkP x (info (if Nat.eqb resp_num 0 then hdrs else []) [req_any r]) :: sent, rn, pend)
+      end
+    end
+  end.
+
+Definition g_bidi (hdrs : list header) (reqs : list request) : wire :=
+  match reqs with
+  | [] => empty_wire
+  | r0 :: _ =>
+    let d := rq_def r0 in
+    let '(sent, rn, pend) :=
+      if rq_full r0 then g_full_loop hdrs d 0 reqs else ([], 0%nat, snd (recv_all reqs true None [])) in
+    match d with
+    | None => empty_wire
+    | Some df =>
+      let rest := skipn rn (rd_data df) in
+      mkW (rd_headers df) (rd_trailers df) (sent ++ flush hdrs pend rn rest) (final_err hdrs pend (rn + length rest) df)
+    end
+  end.
+
+Definition grpc_server (st : N) (hdrs : list header) (reqs : list request) : wire :=
+  if st =? 1 then g_unary hdrs reqs
+  else if st =? 2 then g_client_stream hdrs reqs
+  else if st =? 3 then g_server_stream hdrs reqs
+  else g_bidi hdrs reqs.
 
 (* ------------------------------------------------------------------ *)
-(* projections used by the correspondence check                       *)
+(* the clients: what they report                                      *)
+(* ------------------------------------------------------------------ *)
+(* connect-go hands the metadata of a failed unary / client-stream call over as one bag (Error.Meta):
+   per name, the header values followed by the trailer values *)
+Definition meta_merge (hs ts : list header) : list header :=
+  map (fun k => mkH k (all_vals hs k ++ all_vals ts k)) (dedup (map lname hs ++ map lname ts)).
+
+(* bidiStream, full duplex: after each request sent, one receive; the first receive that yields no message
+   (error or end of stream) ends the sending.  [avail] is what the server still has to deliver. *)
+Fixpoint alternate (nreq : nat) (avail : list payload) : list payload * list payload (* received, still to come *) :=
+  match nreq with
+  | O => ([], avail)
+  | S n =>
+    match avail with
+    | [] => ([], [])
+    | p :: rest => let '(got, more) := alternate n rest in (p :: got, more)
+    end
+  end.
+
+Definition stream_report (nreq : nat) (full : bool) (w : wire) : result :=
+  let payloads := if full then let '(got, more) := alternate nreq (w_msgs w) in got ++ more else w_msgs w in
+  mkR (w_headers w) (w_trailers w) payloads (w_err w) None 0.
+
+Definition ref_client (st : N) (nreq : nat) (w : wire) : result :=
+  if (st =? 1) || (st =? 2) then
+    match w_err w with
+    | Some e => mkR [] (meta_merge (w_headers w) (w_trailers w)) [] (Some e) None 0
+    | None => mkR (w_headers w) (w_trailers w) (w_msgs w) None None 0
+    end
+  else stream_report nreq (st =? 5) w.
+
+(* grpc-go reports header and trailer metadata separately for every kind of call *)
+Definition grpc_client (st : N) (nreq : nat) (w : wire) : result :=
+  if (st =? 1) || (st =? 2) then
+    match w_err w with
+    | Some e => mkR (w_headers w) (w_trailers w) [] (Some e) None 0
+    | None => mkR (w_headers w) (w_trailers w) (w_msgs w) None None 0
+    end
+  else stream_report nreq (st =? 5) w.
+
+(* ------------------------------------------------------------------ *)
+(* one run                                                            *)
+(* ------------------------------------------------------------------ *)
+Section Run.
+  Variable tr_req : list header -> list header.          (* request headers as the server's handler sees them *)
+  Variable tr_rsp : wire -> wire.                        (* the response as the client's library hands it over *)
+  Definition observed (server : N -> list header -> list request -> wire) (client : N -> nat -> wire -> result)
+             (tc : tcase) : result :=
+    client (t_stype tc) (length (t_requests tc))
+           (tr_rsp (server (t_stype tc) (tr_req (t_reqheaders tc)) (t_requests tc))).
+End Run.
+
+(* what assert reads of the test case: stream type; no other acceptable codes in this fragment *)
+Definition case_def (tc : tcase) : def := mkD (t_stype tc) [].
+
+Definition verdict_errs tr_req tr_rsp server client (tc : tcase) : outcome (list errkind) :=
+  match expected tc with
+  | Ok e => Ok (assert_errs (case_def tc) e (observed tr_req tr_rsp server client tc))
+  | Err => Err
+  | Crash => Crash
+  end.
+
+(* ------------------------------------------------------------------ *)
+(* well-formed test cases of the deterministic fragment               *)
+(* ------------------------------------------------------------------ *)
+Definition is_tchar (c : N) : bool :=
+  ((48 <=? c) && (c <=? 57)) || ((65 <=? c) && (c <=? 90)) || ((97 <=? c) && (c <=? 122)) || (c =? 45) || (c =? 95).
+(* names the protocols, the HTTP stack or the peers themselves set: excluded *)
+Definition reserved_prefixes : list bytes :=
+  [bs "connect-"; bs "grpc-"; bs "content-"; bs "accept-"; bs "trailer"; bs "transfer-"; bs "te"; bs "host";
+   bs "user-agent"; bs "server"; bs "date"; bs "connection"; bs "upgrade"; bs "keep-alive"; bs "proxy-"; bs "x-expect-";
+   bs "x-conformance-"; bs "x-test-case-name"].
+Definition name_ok (n : bytes) : bool :=
+  negb (is_nil n) && forallb is_tchar n && negb (existsb (fun p => has_prefix p (lower n)) reserved_prefixes).
+(* field values: visible ASCII and inner spaces/tabs, no comma (commas split values: "repeated" values are
+   separate list elements), no leading or trailing whitespace *)
+Definition is_vchar (c : N) : bool := (33 <=? c) && (c <=? 126) && negb (c =? 44).
+Definition value_ok (v : bytes) : bool :=
+  match v with
+  | [] => true
+  | c :: _ => is_vchar c && is_vchar (last v 0) && forallb (fun c => is_vchar c || (c =? 32) || (c =? 9)) v
+  end.
+(* a -bin name carries base64 text without padding: checked by the generator, not needed by any proof *)
+Definition header_ok (h : header) : bool :=
+  name_ok (h_name h) && negb (is_nil (h_vals h)) && forallb value_ok (h_vals h).
+Definition wf_headers (hs : list header) : bool :=
+  forallb header_ok hs && negb (has_dup (map lname hs)).
+
+Definition kind_of_stype (st : N) : N := if st =? 1 then 0 else if st =? 2 then 1 else if st =? 3 then 2 else 3.
+
+Definition wf_def (d : rdef) : bool := wf_headers (rd_headers d) && wf_headers (rd_trailers d).
+
+Definition wf (tc : tcase) : bool :=
+  expandable tc && negb (is_nil (t_name tc))
+  && wf_headers (t_reqheaders tc)
+  && forallb (fun r => (rq_kind r =? kind_of_stype (t_stype tc)) && Bool.eqb (rq_full r) (t_stype tc =? 5)
+                       && match rq_def r with Some d => wf_def d | None => true end) (t_requests tc)
+  && (if (t_stype tc =? 1) || (t_stype tc =? 3) then Nat.eqb (length (t_requests tc)) 1 else true).
+
+(* full-duplex stream, several requests, no response data, an error: the generator's expectation lists every
+   request in the error's request info, the servers have seen only the first one when they must fail
+   (known finding, see KNOWN_FINDINGS.txt class fd-immediate-error-multi) *)
+Definition fd_immediate_error_multi (tc : tcase) : bool :=
+  (t_stype tc =? 5) && Nat.ltb 1 (length (t_requests tc))
+  && match first_def false (t_requests tc) with
+     | FDef d => is_nil (rd_data d) && is_some (rd_err d)
+     | _ => false
+     end.
+
+(* ------------------------------------------------------------------ *)
+(* projections compared with the Go side                              *)
 (* ------------------------------------------------------------------ *)
 Fixpoint strip_spaces_l (s : bytes) : bytes :=
   match s with 32 :: s' => strip_spaces_l s' | _ => s end.
 Definition strip_spaces (s : bytes) : bytes := rev (strip_spaces_l (rev (strip_spaces_l s))).
 Definition split_vals (vals : list bytes) : list bytes :=
   flat_map (fun v => map strip_spaces (split_on 44 v)) vals.
-
-Definition names_of (hs : list header) : list bytes := map (fun h => lower (fst h)) hs.
 Definition vals_for (n : bytes) (hs : list header) : list bytes :=
-  flat_map (fun h => if bytes_eqb (lower (fst h)) n then split_vals (snd h) else []) hs.
-(* restrict to `names`, one entry per name present, sorted, values flattened in order of appearance *)
+  flat_map (fun h => if bytes_eqb (lname h) n then split_vals (h_vals h) else []) hs.
+(* restrict to [names] (lower case), one entry per name present, sorted, values cut at commas in order of appearance *)
 Definition project (hs : list header) (names : list bytes) : list header :=
-  map (fun n => (n, vals_for n hs))
-      (sort_bytes (dedup (filter (fun n => mem_bytes n names) (names_of hs)))).
+  map (fun n => mkH n (vals_for n hs))
+      (sort_bytes (dedup (filter (fun n => mem_bytes n names) (map lname hs)))).
 
-Definition sx_header (h : header) : sx := L [B (fst h); L (map B (snd h))].
+Definition sx_header (h : header) : sx := L [B (h_name h); L (map B (h_vals h))].
 Definition sx_headers (hs : list header) : sx := L (map sx_header hs).
-Definition sx_info (req_names : list bytes) (o : option reqinfo) : sx :=
-  match o with
-  | None => L []
-  | Some ri => L [L [sx_headers (project (ri_headers ri) req_names);
-                     L (map sx_nat (ri_requests ri));
-                     match ri_timeout ri with None => L [] | Some z => L [I z] end]]
-  end.
-
-Definition type_url (kind : N) : bytes :=
-  if kind =? 0 then bs "type.googleapis.com/connectrpc.conformance.v1.Header"
-  else bs "type.googleapis.com/connectrpc.conformance.v1.Error".
-(* proto encoding of Header{name: b} (field 1) and Error{message: b} (field 2); b shorter than 128 bytes *)
-Definition detail_bytes (kind : N) (b : bytes) : bytes :=
-  match b with
-  | [] => if kind =? 0 then [] else [18; 0]
-  | _ => (if kind =? 0 then 10 else 18) :: N.of_nat (length b) :: b
-  end.
-
-Definition sx_detail (req_names : list bytes) (d : detail) : sx :=
+Definition sx_any (a : any) : sx := L [sx_N (a_ty a); B (a_data a)].
+Definition sx_info (rq : list bytes) (ri : reqinfo) : sx :=
+  L [sx_headers (project (ri_headers ri) rq); L (map sx_any (ri_requests ri));
+     match ri_timeout ri with None => L [] | Some z => L [I z] end].
+Definition sx_detail (rq : list bytes) (d : detail) : sx :=
   match d with
-  | DAny k b => L [I 0; B (type_url k); B (detail_bytes k b)]
-  | DInfo ri => L [I 1; sx_info req_names (Some ri)]
+  | DOther a => L [I 0; B (type_url (a_ty a - 10)); B (a_data a)]
+  | DReq ri => L [I 1; sx_info rq ri]
   end.
-Definition sx_rerr (req_names : list bytes) (o : option rerr) : sx :=
+Definition sx_rerr (rq : list bytes) (o : option rpc_error) : sx :=
   match o with
   | None => L []
-  | Some e => L [L [sx_N (re_code e);
-                    match re_msg e with None => L [] | Some m => L [B m] end;
-                    L (map (sx_detail req_names) (re_details e))]]
+  | Some e => L [L [sx_N (e_code e); match e_msg e with None => L [] | Some m => L [B m] end;
+                    L (map (sx_detail rq) (e_details e))]]
   end.
-Definition sx_payload (req_names : list bytes) (p : payload) : sx :=
-  L [B (p_data p); sx_info req_names (p_info p)].
-
-Definition sx_result (req_names : list bytes) (rsp_names : option (list bytes)) (r : result) : sx :=
-  let pr hs := match rsp_names with Some ns => project hs ns | None => project hs (names_of hs) end in
-  L [sx_headers (pr (res_headers r)); sx_headers (pr (res_trailers r));
-     L (map (sx_payload req_names) (res_payloads r)); sx_rerr req_names (res_err r); sx_N (res_unsent r)].
-
-Definition sx_outcome (req_names : list bytes) (o : outcome result) : sx :=
-  match o with
-  | Ok r => sx_result req_names None r
-  | Err => sx_err "load"
-  | Crash => sx_crash
-  end.
+Definition sx_payload (rq : list bytes) (p : payload) : sx := L [B (p_data p); sx_info rq (p_info p)].
+Definition sx_result (rq rsp : list bytes) (r : result) : sx :=
+  L [sx_headers (project (r_headers r) rsp); sx_headers (project (r_trailers r) rsp);
+     L (map (sx_payload rq) (r_payloads r)); sx_rerr rq (r_error r)].
 
 (* ---------- decoding ---------- *)
-Definition un_header (s : sx) : option header :=
-  match s with L [B n; vs] => do vs <- un_listof un_B vs; ret (n, vs) | _ => None end.
-Definition un_err (s : sx) : option err :=
+Definition un_xerr (s : sx) : option xerr :=
   match s with
   | L [I c; m; L ds] =>
     do m <- un_opt un_B m;
     do ds <- un_list (fun d => match d with L [I k; B b] => Some (Z.to_N k, b) | _ => None end) ds;
-    ret {| e_code := Z.to_N c; e_msg := m; e_details := ds |}
+    ret (mkX (Z.to_N c) m ds)
   | _ => None
   end.
-Definition un_def (s : sx) : option def :=
+Definition un_rdef (s : sx) : option rdef :=
   match s with
   | L [hs; ts; ds; e] =>
     do hs <- un_listof un_header hs; do ts <- un_listof un_header ts;
-    do ds <- un_listof un_B ds; do e <- un_opt un_err e;
-    ret {| d_headers := hs; d_trailers := ts; d_data := ds; d_err := e |}
+    do ds <- un_listof un_B ds; do e <- un_opt un_xerr e;
+    ret (mkRD hs ts ds e)
   | _ => None
   end.
 Definition un_request (s : sx) : option request :=
   match s with
-  | L [B d; df] => do df <- un_opt un_def df; ret {| r_data := d; r_def := df |}
+  | L [I k; I f; B d; df] => do df <- un_opt un_rdef df; ret (mkRq (Z.to_N k) (negb (f =? 0)%Z) d df)
   | _ => None
   end.
 Definition un_tcase (s : sx) : option tcase :=
   match s with
   | L [B n; I st; hs; rs] =>
     do hs <- un_listof un_header hs; do rs <- un_listof un_request rs;
-    ret {| t_name := n; t_stype := Z.to_N st; t_reqheaders := hs; t_requests := rs |}
+    ret (mkT n (Z.to_N st) hs rs)
   | _ => None
   end.
 
 Definition rsp_names (tc : tcase) : list bytes :=
-  match first_def tc with None => [] | Some d => names_of (d_headers d) ++ names_of (d_trailers d) end.
+  match t_requests tc with
+  | r :: _ => map lname (def_headers (rq_def r)) ++ map lname (def_trailers (rq_def r))
+  | [] => []
+  end.
+Definition req_names (tc : tcase) : list bytes := map lname (t_reqheaders tc).
 
-(* (tests) -> per test, sorted by name: (name expected) *)
 Definition sort_by_name (l : list (bytes * sx)) : list (bytes * sx) :=
   let names := sort_bytes (map fst l) in
   flat_map (fun n => match find (fun e => bytes_eqb (fst e) n) l with Some e => [e] | None => [] end) names.
 
-Definition load_fails (tcs : list tcase) : bool :=
-  existsb (fun tc => match expected tc with Err => true | _ => false end) tcs.
-Definition load_crashes (tcs : list tcase) : bool :=
-  existsb (fun tc => match expected tc with Crash => true | _ => false end) tcs.
-
+(* (tests) -> (err load) | crash | per loaded test, sorted by name: (name expected), the expectation projected on
+   every name it carries *)
 Definition run_c02_expect (args : list sx) : sx :=
   or_bad (match args with
   | [ts] =>
     do tcs <- un_listof un_tcase ts;
-    if load_crashes tcs then ret sx_crash
-    else if load_fails tcs then ret (sx_err "load")
-    else ret (L (map (fun e => L [B (fst e); snd e])
-               (sort_by_name (map (fun tc => (t_name tc, sx_outcome (names_of (t_reqheaders tc)) (expected tc))) tcs))))
+    match load tcs with
+    | Crash => ret sx_crash
+    | Err => ret (sx_err "load")
+    | Ok rs =>
+      ret (L (map (fun e => L [B (fst e); snd e])
+                  (sort_by_name (map (fun nr =>
+                     let r := snd nr in
+                     let tcn := find (fun tc => bytes_eqb (t_name tc) (fst nr)) tcs in
+                     let rq := match tcn with Some tc => req_names tc | None => [] end in
+                     (fst nr, sx_result rq (map lname (r_headers r) ++ map lname (r_trailers r)) r)) rs))))
+    end
   | _ => None end).
 
-(* ((client server) (cfgcase ...) (test ...)) -> per permutation sorted by full name:
-   (name cfgkey expected verdict feedback actual).  Full names are V/<cfg components>/<name>; the
-   harness emits base name and a config key, and sorts by full name, which for a fixed config list
-   is reproduced here by sorting on (cfgkey order given, name). *)
-Definition applicable (grpc_client grpc_server : bool) (cfg : list Z) (st : N) : bool :=
+(* which config cases a pair of peers runs (C06/C07 and filterGRPCImplTestCases):
+   cfg = (http-version protocol codec compression tls) *)
+Definition applicable (grpc_cl grpc_sv : bool) (cfg : list Z) (st : N) : bool :=
   match cfg with
   | [ver; proto; codec; comp; tls] =>
     negb ((ver =? 1)%Z && (st =? 5)) && negb ((proto =? 2)%Z && negb (ver =? 2)%Z) &&
-    (if grpc_client || grpc_server then
-       negb (proto =? 1)%Z && (if grpc_client then (proto =? 2)%Z else true) &&
+    (if grpc_cl || grpc_sv then
+       negb (proto =? 1)%Z && (if grpc_cl then (proto =? 2)%Z else true) &&
        (if (proto =? 3)%Z then (ver =? 1)%Z || (ver =? 2)%Z else (ver =? 2)%Z) &&
        (codec =? 1)%Z && ((comp =? 1)%Z || (comp =? 2)%Z) && (tls =? 0)%Z
      else true)
   | _ => false
   end.
 
+Definition id_hdrs (hs : list header) : list header := hs.
+Definition id_wire (w : wire) : wire := w.
+
+(* ((grpc-client grpc-server) (cfg ...) (test ...)) -> per config case in the given order, per applicable test in the
+   given order: (name cfg verdict observed).  The verdict is the one the property demands of a well-formed case;
+   a case that is not well-formed is a bad case. *)
 Definition run_c02_live (args : list sx) : sx :=
   or_bad (match args with
   | [L [I gc; I gs]; L cfgs; ts] =>
     do tcs <- un_listof un_tcase ts;
     do cfgs <- un_list (un_listof un_I) cfgs;
     let gc := negb (gc =? 0)%Z in let gs := negb (gs =? 0)%Z in
-    if load_crashes tcs then ret sx_crash
-    else if load_fails tcs then ret (sx_err "load")
-    else
+    if negb (forallb wf tcs) then None
+    else match load tcs with
+    | Crash => ret sx_crash
+    | Err => ret (sx_err "load")
+    | Ok _ =>
+      let server := if gs then grpc_server else ref_server in
+      let client := if gc then grpc_client else ref_client in
       ret (L (flat_map (fun cfg =>
             map (fun tc =>
-                   let rq := names_of (t_reqheaders tc) in
-                   L [B (t_name tc); L (map I cfg);
-                      sx_outcome rq (expected tc); B (bs "pass"); L [];
-                      sx_result rq (Some (rsp_names tc)) (observed tc)])
+                   L [B (t_name tc); L (map I cfg); B (bs "pass");
+                      sx_result (req_names tc) (rsp_names tc) (observed id_hdrs id_wire server client tc)])
                 (filter (fun tc => applicable gc gs cfg (t_stype tc)) tcs)) cfgs))
+    end
   | _ => None end).
 
 Definition c02_table : list (bytes * (list sx -> sx)) :=
